@@ -3,6 +3,7 @@ CONSTANTS
  DescPlatStrict = FALSE
  PlatLookupStrict = FALSE
  ReadFaults = TRUE
+ EqualAnnStrict = FALSE
  PutFirst = FALSE
  DedupByDigest = FALSE
  DeleteKeepsOne = FALSE
